@@ -24,8 +24,8 @@ META = dict(
     "attachment and regularity are uninterpreted functions; on every path (every accept/reject pattern, every visiting order) it is proved that "
     "each proposal perturbs exactly the targeted block by std*z with the draw consumed for that block, that the decision taken is "
     "u < exp(-(dR*beta + dA)) with the uniform consumed for that decision (one per decision), that the acceptance history receives the "
-    "decisions, that the final value is the accepted/rejected mixture, and that row i of the individual sampler mentions only row i's symbols.",
-    bounds="population shapes (2,), (3,), (2,1), (2,2) [thorough: (3,2)]; individuals <= 3 with row shape (1,), (2,); one call of sample(); all visiting orders",
+    "decisions, that the final value is the accepted/rejected mixture, and that row i of the individual sampler mentions only row i's symbols. In IEEE float32 (where likelihoods can overflow to inf / NaN) the real individual sampler is run on two executions that agree on individual 0 and differ freely on the others, and individual 0's new value, recorded decision and refreshed attachment are proved bit-identical (2-safety non-interference).",
+    bounds="population shapes (2,), (3,), (2,1), (2,2) [thorough: (3,2)]; individuals <= 3 with row shape (1,), (2,); one call of sample(); all visiting orders; IEEE float32 2-safety task: 2 (3) individuals, row shape (1,) ((2,)), concrete squared-error attachment / regularity, finite state and draws, likelihoods free to overflow",
     outside="mixture branches (softmax-weighted regularity); masked samplers (NotImplementedError in this tree, asserted); detailed balance as a probabilistic statement",
     assumptions=["floats as reals; exp abstracted (positive, monotone)", "torch.randn / torch.rand replaced by fresh symbols, random.shuffle by an enumerated permutation"],
 )
